@@ -545,6 +545,32 @@ func (w *World) Do(s *Step) error {
 			return fmt.Errorf("harness: %v", err)
 		}
 		w.qB = append(w.qB, last)
+	case "ForkSlow":
+		// the competing branch exists as side blocks; the chain database is untouched
+		last := s.P
+		for i, txs := range s.Txs {
+			if _, err := w.buildBlock(s.B+i, last, txs); err != nil {
+				return fmt.Errorf("harness: %v", err)
+			}
+			last = s.B + i
+		}
+	case "ReorgStep":
+		// one disconnect or one connect of reorganizeChain, its own chain-database commit
+		if s.Det {
+			if tip := w.E.Tip(); *tip.Hash() != *w.Blk[s.B].Hash() {
+				return fmt.Errorf("harness: detach of b%d but the tip is another block", s.B)
+			}
+			if err := w.E.Detach(); err != nil {
+				return fmt.Errorf("harness: %v", err)
+			}
+		} else {
+			if err := w.E.Attach(w.Blk[s.B]); err != nil {
+				return fmt.Errorf("harness: %v", err)
+			}
+			if s.Done {
+				w.qB = append(w.qB, s.B)
+			}
+		}
 	case "SwitchTo":
 		if err := w.E.SwitchTo(*w.Blk[s.B].Hash(), nil); err != nil {
 			return fmt.Errorf("harness: %v", err)
